@@ -258,6 +258,28 @@ namespace
 	      check_zlib_error_code(zerr);
 	  }
 	while (stream.avail_out == 0);
+	if (zerr == Z_STREAM_END)
+	  {
+	    // That was the end of one gzip member.  A gzip file may
+	    // consist of several members (as produced by "cat a.gz
+	    // b.gz", for example) whose decompressed contents are
+	    // simply concatenated.  If any input remains, carry on
+	    // with the next member rather than silently dropping it.
+	    if (stream.avail_in != 0)
+	      {
+		// Hand back the input we read but zlib did not consume,
+		// so that the next fread() sees it.
+		if (0 != fseek(f, -static_cast<long>(stream.avail_in), SEEK_CUR))
+		  throw DFS::FileIOError(name, errno);
+	      }
+	    const int next = getc(f);
+	    if (next != EOF)
+	      {
+		ungetc(next, f);
+		check_zlib_error_code(inflateReset(&stream));
+		zerr = Z_OK;
+	      }
+	  }
       }
   }
 
